@@ -4548,6 +4548,8 @@ class ParseCtx:
             # the size includes the null terminator, if there is one
             if str_size < (1 if str_null else 0):
                 raise IllegalParseTree("String size is too small" + (" to hold the null terminator" if str_null else ""), type_obj.children[0])
+            if default_value is not None and len(default_value) > (str_size - 1 if str_null else str_size):
+                raise IllegalParseTree("Default value is too long for output", decl.children[2])
             return OutputStorage(OutputStorageType.STR, name, default_value=default_value, str_size=str_size, str_null=str_null)
         elif type_obj.data == "raw_type":
             return OutputStorage(OutputStorageType.RAW, name, raw_underlying=type_obj.children[0].value)
